@@ -3,6 +3,7 @@
 from ..core import Case, err_name
 from ..seqcheck import SeqProp
 from .C10 import pyval
+from ..core import dec_val, enc_val
 
 
 class Prop(SeqProp):
@@ -81,20 +82,20 @@ class Prop(SeqProp):
                 if st[0] == "mk":
                     d = {}
                     for i, (s, e) in enumerate(st[1]):
-                        d[(pyval(s, i % 3 == 0), pyval(e, i % 2 == 0))] = i + 1
+                        d[(pyval(s, i % 3 == 0), pyval(e, i % 2 == 0))] = dec_val(i)  # the model calls it i + 1; small codes are falsy objects
                     m = None
                     m = ImmutIntervalMap(d)
                     out.append("ok")
                 elif m is None:
                     out.append("bad-op")
                 elif st[0] == "get":
-                    out.append(f"ret {m[pyval(st[1], st[1] % 4 == 0)]}")
+                    out.append(f"ret {enc_val(m[pyval(st[1], st[1] % 4 == 0)]) + 1}")
                 elif st[0] == "has":
                     out.append(f"ret {1 if pyval(st[1]) in m else 0}")
                 elif st[0] == "len":
                     out.append(f"ret {len(m)}")
                 elif st[0] == "iter":
-                    out.append("ret " + ",".join(f"{round(s * 2)}:{round(e * 2)}:{v}" for (s, e), v in m))
+                    out.append("ret " + ",".join(f"{round(s * 2)}:{round(e * 2)}:{enc_val(v) + 1}" for (s, e), v in m))
                 else:
                     out.append("bad-op")
             except BaseException as e:  # noqa
